@@ -89,6 +89,7 @@ type ExternDecl struct {
 	Params  []string
 	Ensures []*Clause
 	Requires []*Clause
+	Modifies []Expr
 }
 
 type Lemma struct {
@@ -473,16 +474,29 @@ func parseContractFile(path, pkg string, cf *ContractFile) error {
 					kind = "ensures"
 				} else if strings.HasPrefix(r2, "requires") {
 					kind = "requires"
+				} else if strings.HasPrefix(r2, "modifies") {
+					kind = "modifies"
 				} else {
 					return fail(fmt.Errorf("bad extern tail %q", r2))
 				}
 				r2 = strings.TrimSpace(r2[len(kind):])
 				// up to next " ensures " / " requires "
 				end := len(r2)
-				for _, k := range []string{" ensures ", " requires "} {
+				for _, k := range []string{" ensures ", " requires ", " modifies "} {
 					if i := strings.Index(r2, k); i >= 0 && i < end {
 						end = i
 					}
+				}
+				if kind == "modifies" {
+					for _, loc := range splitTop(r2[:end], ',') {
+						e, err := parseExpr(strings.ReplaceAll(strings.TrimSpace(loc), "[_]", "[$any]"))
+						if err != nil {
+							return fail(err)
+						}
+						ex.Modifies = append(ex.Modifies, e)
+					}
+					r2 = strings.TrimSpace(r2[end:])
+					continue
 				}
 				c, err := mkClause(kind, r2[:end], d.file, d.line)
 				if err != nil {
